@@ -94,10 +94,16 @@ impl Database {
                                         change.key,
                                         pendding_conflict.len()
                                     );
-                                    (
-                                        pendding_conflict.last().unwrap().to_string(),
-                                        version.saturating_add(pendding_conflict.len() as i32),
-                                    )
+                                    match pendding_conflict.last() {
+                                        Some(last_conflict) => (
+                                            last_conflict.to_string(),
+                                            version.saturating_add(pendding_conflict.len() as i32),
+                                        ),
+                                        // The records of the conflicts the key waits for are gone
+                                        // (a client removed them) or not stored yet (a writer
+                                        // racing this one): this write is the head of the queue
+                                        None => (old_value.to_string(), version),
+                                    }
                                 } else {
                                     (old_value.to_string(), old_version)
                                 };
